@@ -101,7 +101,7 @@ func (l *Lexer) NextToken() token.Token {
 		l.skipWhitespace()
 	}
 
-	if l.char == 0 {
+	if l.isEOF() {
 		l.tokenBegins()
 		return l.newToken(token.EOF, "")
 	}
@@ -450,7 +450,7 @@ func (l *Lexer) readString() string {
 
 	pos := l.pos
 
-	for l.char != 0 {
+	for !l.isEOF() {
 		prevChar := l.char
 
 		l.readChar()
@@ -504,7 +504,7 @@ func (l *Lexer) readHTML() string {
 	var out bytes.Buffer
 	l.tokenBegins()
 
-	for l.isHTML && l.char != 0 {
+	for l.isHTML && !l.isEOF() {
 		isDirective, escapedDir := l.isDirectiveToken()
 		areBraces, escapedBraces := l.areBracesToken()
 
@@ -559,6 +559,12 @@ func (l *Lexer) readChar() {
 	l.shouldResetCol = l.char == '\n'
 }
 
+// isEOF tells if the whole input was read. A NUL byte in
+// the input is an ordinary character, not the end of the input
+func (l *Lexer) isEOF() bool {
+	return l.pos >= len(l.input)
+}
+
 func (l *Lexer) peekChar() byte {
 	if l.readPos >= len(l.input) {
 		return 0
@@ -574,7 +580,7 @@ func (l *Lexer) skipWhitespace() {
 }
 
 func (l *Lexer) skipComment() {
-	for l.char != 0 {
+	for !l.isEOF() {
 		if l.char != '-' || l.peekChar() != '-' {
 			l.readChar()
 			continue
